@@ -79,12 +79,51 @@ def oracle(case, rng, thorough=False):
         return f'shift_episodes / fit raised {type(ex).__name__}: {ex}', {'raised': True}
 
 
+class _Rec(pykoop.KoopmanRegressor):
+    """records what reaches the concrete solver"""
+
+    def _fit_regressor(self, X_unshifted, X_shifted):
+        self.seen_ = (np.array(X_unshifted), np.array(X_shifted))
+        return np.zeros((X_unshifted.shape[1], X_shifted.shape[1]))
+
+    def _validate_parameters(self):
+        pass
+
+
+def _pairs_on(X, nx, nu, ep):
+    """direct statement of the property on one matrix: pairs produced by shift_episodes / seen by a regressor vs the
+    independent per-label reference (compared as multisets per label, since only the pairing matters)"""
+    X = np.asarray(X, dtype=float)
+    ref_u = np.vstack([Xe[:-1] for _, Xe in st.ref_split(X, ep)] or [np.zeros((0, nx + nu))])
+    ref_s = np.vstack([Xe[1:, :nx] for _, Xe in st.ref_split(X, ep)] or [np.zeros((0, nx))])
+    ref = sorted(map(tuple, np.hstack((ref_u, ref_s)).tolist()))
+    if not ref:
+        return None
+    e = 1 if ep else 0
+    Xu, Xs = pykoop.shift_episodes(X, n_inputs=nu, episode_feature=ep)
+    got = sorted(map(tuple, np.hstack((Xu[:, e:], Xs[:, e:])).tolist())) if Xu.shape[0] == Xs.shape[0] else None
+    if got != ref:
+        return ('shift_episodes(X) does not return exactly the within-episode consecutive pairs of X '
+                '(a pair straddles two episodes, is dropped or duplicated)')
+    r = _Rec().fit(X, n_inputs=nu, episode_feature=ep)
+    su, ss = r.seen_
+    got = sorted(map(tuple, np.hstack((su, ss)).tolist())) if su.shape[0] == ss.shape[0] else None
+    if got != ref:
+        return 'the pairs a regressor hands to its solver are not the within-episode consecutive pairs of X'
+    return None
+
+
 def _oracle(case, rng, thorough=False):
     """coef_ of fit(X) == fit(Xu, Xs) == fit(relabelled / reordered X), on well-conditioned float data"""
     nx, nu, ep = case['nx'], case['nu'], case['ep']
     e = 1 if ep else 0
     rs = np.random.RandomState(rng.randint(0, 2 ** 31 - 1))
     X = st.X_of(case).copy()
+    # (0) the case's OWN matrix (its exact episode lengths and layout): shift_episodes and the arguments a bare
+    # regressor hands to its solver must be the within-episode consecutive pairs
+    w0 = _pairs_on(X, nx, nu, ep)
+    if w0:
+        return w0, {'own_layout': True}
     # random linear system so that the regression problem is well posed
     A = rs.uniform(-0.6, 0.6, (nx, nx))
     B = rs.uniform(-1, 1, (nx, nu))
